@@ -148,8 +148,8 @@ def gen_body(cx, name, depth, callees, indent, max_stmts, stmt_lines, in_loop=1)
             cx.emit(f'{pad}}}')
             cost += 1 + it * 2
         elif k < 0.87:
-            st = rng.choice(['x = one(x);', 'x = onerec({n}, x);', 'x = (|v: u64| {{ tick!(); v.wrapping_add({c}) }})(x);',
-                             'x = (|v: u64| {{ tick!(); v.rotate_left(3) ^ {c} }})(x ^ 1);', 'x = one(onerec({n}, x));'])
+            st = rng.choice(['x = one(x);', 'x = onerec({n}, x);', 'x = (|v: u64| {{ tick!(); v ^ {c} }})(x);',
+                             'x = (|v: u64| {{ tick!(); (v >> 3) | {c} }})(x ^ 1);', 'x = one(onerec({n}, x));'])
             ln = cx.emit(f'{pad}tick!(); ' + st.format(n=rng.randint(1, 4), c=_const(rng)))
             stmt_lines.append(ln)
             if '(|v' in st:
@@ -286,7 +286,7 @@ def gen(seed, budget=1500, nfuncs=None, rec_depth=None, signals=False):
             continue
         total += c
         sl.append(cx.emit(f"    tick!(); x = x.wrapping_add({ent['call'].format(a='x')});"))
-    ln = cx.emit('    tick!(); x = (|v: u64| { tick!(); v.wrapping_add(5) })(x);')
+    ln = cx.emit('    tick!(); x = (|v: u64| { tick!(); v ^ 0x5a5a })(x);')
     sl.append(ln)
     cx.same_line_callee_lines.append(ln)
     sl.append(cx.emit(f"    tick!(); x ^= {rec_ent['call'].format(a='x')};"))
